@@ -179,6 +179,12 @@ def target_names(kernel, tier):
 
 def cells(tier, seed):
     k = refs.cat(seed)
+    # history "block sampler inside HybridGibbs": the kernel is re-targeted to a new conditional before every transition
+    for kernel in ("MH", "PCN"):
+        for sc in ("s0.3", "s0.6"):
+            for start in (0, 1):
+                yield {"iface": "exp", "kernel": kernel, "hist": "gibbs-block", "scale": sc, "start": start, "cat": k, "tier": tier,
+                       "sweeps": 3 if tier == "quick" else 4}
     for iface in IFACES:
         for kernel in KERNELS:
             for t in target_names(kernel, tier):
@@ -187,6 +193,8 @@ def cells(tier, seed):
                     scales = ["s0.05", "s0.6", "vec"]
                 if kernel == "MH" and t == "gauss2c":
                     scales.append("covprop")
+                if kernel == "MH" and t in ("gauss2c", "gauss1"):
+                    scales.append("userprop-shifted")    # user-defined proposal, symmetry flag unset, increments NOT symmetric
                 for sc in scales:
                     yield {"iface": iface, "kernel": kernel, "target": t, "scale": sc, "cat": k, "tier": tier}
                     if sc == "s0.6" and t in ("gauss2c", "banana2", "libpost2", "quart+shift2", "glik+shift1"):
@@ -204,7 +212,7 @@ def _scale_value(cell, dim):
     sc = cell["scale"]
     if sc == "vec":
         return np.array([0.3, 0.8, 0.5])[:dim]
-    if sc == "covprop":
+    if sc in ("covprop", "userprop-shifted"):
         return 0.6
     return float(sc[1:])
 
@@ -222,6 +230,11 @@ class Adapter:
         self.proposal = None
         if cell["scale"] == "covprop":
             self.proposal = cuqi.distribution.Gaussian(np.zeros(self.dim), np.array([[1.0, 0.3], [0.3, 0.5]]))
+        if cell["scale"] == "userprop-shifted":
+            # increments 0.5 + N(0, I): not symmetric about 0, and the user did not declare any symmetry (is_symmetric=None).
+            # The sampler must refuse it, or account for q(x|x')/q(x'|x) in its acceptance probability.
+            dim = self.dim
+            self.proposal = cuqi.distribution.UserDefinedDistribution(dim=dim, sample_func=lambda: 0.5 + np.random.standard_normal(dim))
 
     def construct(self, x):
         x = np.array(x, dtype=float)
@@ -372,6 +385,8 @@ def histories(cell):
 # the cell
 # ----------------------------------------------------------------------------------------
 def eval_cell(cell):
+    if cell.get("hist") == "gibbs-block":
+        return eval_gibbs_block(cell)
     res = CellResult(cell)
     k = cell["cat"]
     tgt = Target(cell["target"], k, cell["kernel"])
@@ -703,3 +718,106 @@ def cwmh_compare(ad, tgt, x, xi, m_x, T_x, leaves, res, hname, fail, focus):
         res.sample = {"history": hname, "x": x, "xi": xi, "component_proposals": c,
                       "final_state_distribution": [[list(kx), p] for kx, p in sorted(di.items())]}
     return len(di) > 1
+
+
+
+# ----------------------------------------------------------------------------------------
+# history: the kernel as a block sampler inside HybridGibbs
+# ----------------------------------------------------------------------------------------
+def eval_gibbs_block(cell):
+    """s ~ Gamma, x | s ~ N(0, I/s), y | x ~ N(A x, 0.5 I); x is updated by the kernel under test, s by Conjugate.  ALL
+    accept/reject patterns of `sweeps` consecutive sweeps are enumerated; at every x-transition the decision probability of
+    the real code must be the Metropolis-Hastings probability for the block's CURRENT conditional target (the value of s drawn
+    in the same sweep) and the proposal mechanism the kernel uses (validated on the accepted branch)."""
+    import cuqi
+    res = CellResult(cell)
+    k, K = cell["cat"], cell["sweeps"]
+    kernel = cell["kernel"]
+    comp = "exp.%s(HybridGibbs-block)" % kernel
+    scale = float(cell["scale"][1:])
+    A = refs.full_matrix(3, 2, k)
+    dat = refs.dyadic_vec(3, k, scale=0.25)
+    x0 = [np.array([0.5, -0.25]), np.array([-0.75, 1.0])][cell["start"]] + 0.0625 * k
+    noise = lambda n, i: refs.dyadic_vec(n, (i + k) % 5, scale=0.25)
+    gam = lambda rec, i: np.full(rec["shape"] or [1], [1.5, 0.75, 2.0, 0.5][(i + k) % 4])
+    loglik = lambda x: float(-0.5 * np.sum((A @ x - dat) ** 2) / 0.5)
+
+    def logpi(x, sval):
+        return loglik(x) + refs.gauss_logpdf(x, np.zeros(2), np.eye(2) / sval)
+
+    def run(d):
+        s = cuqi.distribution.Gamma(2, 1, name="s")
+        x = cuqi.distribution.Gaussian(np.zeros(2), cov=lambda s: 1 / s, name="x")
+        y = cuqi.distribution.Gaussian(cuqi.model.LinearModel(A)(x), 0.5, name="y")
+        J = cuqi.distribution.JointDistribution(s, x, y)(y=dat)
+        cls = getattr(cuqi.experimental.mcmc, kernel)
+        G = cuqi.experimental.mcmc.HybridGibbs(J, {"x": cls(scale=scale, initial_point=np.array(x0)), "s": cuqi.experimental.mcmc.Conjugate()})
+        st = Stream(normal=noise, gamma=gam, decisions=d)
+        with st.installed():
+            G.sample(K)
+        S = G.get_samples()
+        return {"x": np.array(S["x"].samples, float), "s": np.array(S["s"].samples, float).ravel(), "order": list(G.target.get_parameter_names()),
+                "kinds": [r["kind"] for r in st.log]}
+    try:
+        leaves = explore(run)
+    except HarnessError:
+        raise
+    except Exception as e:
+        res.refused += 1
+        res.transitions += 1
+        res.state("refused")
+        res.nontrivial = False
+        res.outcomes.add("gibbs-block-refused:%s" % type(e).__name__)
+        return res
+    res.transitions += len(leaves) * K
+    reported = set()
+
+    def fail(op, msg, focus):
+        if op not in reported:
+            reported.add(op)
+            res.fail("C02|%s|%s|" % (comp, op), msg, focus=focus)
+    inside = False
+    for d, o in leaves:
+        res.traces += 1
+        pts = [(p, ch) for (p, ch, _) in d.points]
+        if len(pts) != K or o["x"].shape[1] != K:
+            fail("decision-count", "%d uniform decisions and %d stored states for %d sweeps" % (len(pts), o["x"].shape[1], K), {"choices": d.choices})
+            continue
+        s_first = o["order"].index("s") < o["order"].index("x")
+        xt = np.array(x0, float)
+        for t in range(K):
+            p_impl, ch = pts[t]
+            # value of s the x-block is conditioned on in sweep t
+            s_cur = o["s"][t] if s_first else (o["s"][t - 1] if t > 0 else None)
+            x_new = o["x"][:, t]
+            res.state("sweep=%d:%s" % (t, tuple(d.choices[:t + 1])))
+            if s_cur is None:
+                xt = x_new
+                continue
+            focus = {"sweep": t, "choices": d.choices, "x": xt, "s": s_cur}
+            if ch:     # accepted branch: the new state is the proposal
+                xi = noise(2, t)
+                if kernel == "MH":
+                    prop_ref = xt + scale * xi
+                    a_ref = float(min(1.0, np.exp(logpi(x_new, s_cur) - logpi(xt, s_cur))))
+                else:
+                    prop_ref = np.sqrt(1 - scale ** 2) * xt + scale * np.sqrt(1.0 / s_cur) * xi
+                    a_ref = float(min(1.0, np.exp(loglik(x_new) - loglik(xt))))
+                res.evaluations += 1
+                inside = inside or (0.0 < a_ref < 1.0)
+                if not close(x_new, prop_ref, 1e-9):
+                    fail("proposal", "accepted state %s is not the %s proposal for the current conditional (%s)" % (x_new, kernel, prop_ref), focus)
+                elif not close(p_impl, a_ref, 1e-8, atol=1e-9):
+                    fail("acceptance-prob", "acceptance probability %.12g of the block transition != Metropolis-Hastings probability %.12g "
+                         "for the block's current conditional target (s=%g) and proposal" % (p_impl, a_ref, s_cur), focus)
+                res.outcomes.add("t=%d:a=%.3f" % (t, a_ref))
+                xt = x_new
+            else:
+                if not np.array_equal(x_new, xt):
+                    fail("reject-moves", "state changed although the proposal was rejected", focus)
+                xt = x_new
+    res.nontrivial = inside
+    if res.sample is None and leaves:
+        d, o = leaves[0]
+        res.sample = {"choices": d.choices, "probabilities": [p for (p, _, _) in d.points], "x": o["x"], "s": o["s"]}
+    return res
